@@ -6,7 +6,7 @@ from vlib import NoVerdict
 
 OWN = {
     "C07": {"sizes", "unique", "noSelf", "rightBucket", "ipBucket", "ipTable", "lists", "known", "noPanic"},
-    "C18": {"noEviction", "fullKeeps", "removalCause", "succession", "recordVersion", "endpointClearsLive", "credit"},
+    "C18": {"noEviction", "fullKeeps", "removalCause", "succession", "recordVersion", "endpointClearsLive", "creditKept", "creditSpent", "creditExhausted"},
 }
 
 
@@ -128,6 +128,10 @@ def run(ctx):
         viol, r = vlib.judge(ctx, "Trace_Table", "Trace_Table.cfg", out, timeout=3000, name="judge-" + label)
         ctx.states += r.distinct
         ctx.transitions += r.generated
+        dr = vlib.printed_json(r, "DRIFT")
+        if dr and dr[-1] and p == "C18":
+            ctx.notes.append("drift (%s run): %d liveness-credit update(s) differ from the pinned arithmetic (+1 on success, div 3 on failure); "
+                             "the statement leaves the rate open, no verdict" % (label, len(dr[-1])))
         mine = [(l, c) for l, c in viol if c in OWN[p]]
         byc = {}
         for l, c in mine:
